@@ -247,6 +247,10 @@ type StubECDSASigner struct {
 	Err   error
 	Calls int
 	Last  []byte
+	// Form varies the DER the stub returns: "" plain SEQUENCE{r,s}; "trailing" the same followed by
+	// bytes after the SEQUENCE; "extra-element" SEQUENCE{r,s,INTEGER 7}; "long-length" the SEQUENCE
+	// length in long form (81 xx), which is BER rather than DER.
+	Form string
 }
 
 func (s *StubECDSASigner) Public() crypto.PublicKey { return s.Pub }
@@ -255,6 +259,25 @@ func (s *StubECDSASigner) Sign(_ io.Reader, digest []byte, _ crypto.SignerOpts) 
 	s.Last = append([]byte{}, digest...)
 	if s.Err != nil {
 		return nil, s.Err
+	}
+	switch s.Form {
+	case "trailing":
+		return append(DER(s.R, s.S), 0x00, 0x01, 0x02), nil
+	case "extra-element":
+		b, err := asn1.Marshal(struct {
+			R, S *big.Int
+			X    int
+		}{s.R, s.S, 7})
+		if err != nil {
+			panic(err)
+		}
+		return b, nil
+	case "long-length":
+		d := DER(s.R, s.S)
+		if len(d) >= 2 && d[1] < 0x80 {
+			return append([]byte{d[0], 0x81, d[1]}, d[2:]...), nil
+		}
+		return d, nil
 	}
 	return DER(s.R, s.S), nil
 }
